@@ -38,11 +38,11 @@ from .recorders import next_seq
 
 BASE_KINDS = ("kbd", "exit", "kbdsub", "exitsub", "basedirect")
 FAILING = {"fail", "error", "failsub", "mismatch", "eqexc", "sameobj", "emptymulti", "xfail_err", "unhashable",
-           "eqany"} | set(BASE_KINDS)
+           "eqany", "surrogate"} | set(BASE_KINDS)
 
 KIND_OUTCOME = {
     "eqexc": "addError", "sameobj": "addError", "emptymulti": "addError", "xfail_err": "addError",
-    "unhashable": "addError", "eqany": "addError",
+    "unhashable": "addError", "eqany": "addError", "surrogate": "addError",
     "skip_empty": "addSkip", "skip2": "addSkip",
     "fail": "addFailure", "failsub": "addFailure", "mismatch": "addFailure",
     "error": "addError", "skip": "addSkip", "skipsub": "addSkip",
@@ -295,6 +295,9 @@ def _do_raise(env, case, action, constituent=False):
         raise note(MyExit(tok))
     if kind == "skipsub":
         raise note(MySkip(tok))
+    if kind == "surrogate":
+        # a message holding a lone surrogate (an os.fsdecode()d file name that is not valid UTF-8)
+        raise note(ValueError(tok + " \udcff.log"))
     if kind == "unhashable":
         raise note(UnhashableError(tok))
     if kind == "eqany":
@@ -585,6 +588,8 @@ def build_case(program, env, runner_factory=None, default_result=None):
 
     if program.get("force_attr") == "class":
         Prog.force_failure = True
+    if program.get("force_attr") == "class_false":
+        Prog.force_failure = False      # the documented default, spelled out by a careful author
     if program.get("own_skip"):
         Prog.skipException = OwnSkip
     if program.get("own_fail"):
